@@ -25,6 +25,8 @@ pub enum Sub {
     Loop(usize, Option<String>, String),
     LoopStart(usize, String),
     ForToLoop(usize, String),
+    /// R11b: replace the iterable expression of for-loop N: wrapper text with `$` standing for the original expression
+    LoopIter(usize, String),
     /// the statement replaced by the preceding @@.replace must have exactly this (normalised) text
     ReplacedText(String),
     Before(String, String),
@@ -50,6 +52,7 @@ pub struct Take {
     pub roles: Vec<(String, String)>,
     pub drop_self: Option<String>,
     pub closure_contracts: Vec<(String, String)>,
+    pub path_rewrites: Vec<(String, String)>,
     pub source: Option<String>,
     /// expect: the item's normalised source text must equal this text (else extraction problem)
     pub expect: Option<String>,
@@ -153,6 +156,11 @@ pub fn parse(text: &str, cdir: &str) -> Result<Vec<Dir>, String> {
                         let it = parts.next().and_then(|s| s.strip_prefix("iter=")).map(|s| s.to_string());
                         take.subs.push(Sub::Loop(n, it, b));
                     }
+                    "loop-iter" => {
+                        let (n, t) = arg.split_once(char::is_whitespace).ok_or(format!("bad @@.loop-iter at line {}", i))?;
+                        let n: usize = n.parse().map_err(|_| format!("bad @@.loop-iter at line {}", i))?;
+                        take.subs.push(Sub::LoopIter(n, t.trim().to_string()));
+                    }
                     "for-to-loop" => {
                         let n: usize = arg.trim().parse().map_err(|_| format!("bad @@.for-to-loop at line {}", i))?;
                         take.subs.push(Sub::ForToLoop(n, b));
@@ -183,6 +191,11 @@ pub fn parse(text: &str, cdir: &str) -> Result<Vec<Dir>, String> {
                     "role" => {
                         let (a, r) = arg.rsplit_once(char::is_whitespace).ok_or(format!("bad @@.role at line {}", i))?;
                         take.roles.push((a.trim().to_string(), r.trim().to_string()));
+                    }
+                    "rewrite-path" => {
+                        let parts: Vec<&str> = arg.split_whitespace().collect();
+                        if parts.len() != 2 { return Err(format!("spec line {}: @@.rewrite-path A B", i)); }
+                        take.path_rewrites.push((parts[0].to_string(), parts[1].to_string()));
                     }
                     "drop-self" => take.drop_self = Some(arg.to_string()),
                     "closure-contract" => take.closure_contracts.push((arg.to_string(), b)),
